@@ -6,6 +6,7 @@ import (
 	"fmt"
 	"log/slog"
 	"os"
+	"path/filepath"
 	"reservoir/utils/assertedpath"
 )
 
@@ -47,17 +48,33 @@ func NewDefault() *Config {
 
 // Writes the configuration to disk.
 func (c *Config) persist() error {
-	f, err := os.Create(configPath.Path)
+	// Write to a temporary file next to the config and rename it into place when complete,
+	// so a failing write never leaves a truncated or half-written config file behind.
+	f, err := os.CreateTemp(filepath.Dir(configPath.Path), filepath.Base(configPath.Path)+".tmp-*")
 	if err != nil {
 		slog.Error("Failed to create config file", "path", configPath.Path, "error", err)
 		return fmt.Errorf("%w: failed to open config file for writing '%s'", ErrConfigFileOpen, configPath.Path)
 	}
-	defer f.Close()
+	tmpPath := f.Name()
 
 	enc := json.NewEncoder(f)
 	enc.SetIndent("", "  ") // Pretty print the JSON output
 	if err := enc.Encode(c); err != nil {
+		f.Close()
+		os.Remove(tmpPath)
 		slog.Error("Failed to encode config to JSON", "path", configPath.Path, "error", err)
+		return fmt.Errorf("%w: failed to write config to file '%s'", ErrConfigFileWrite, configPath.Path)
+	}
+
+	if err := f.Close(); err != nil {
+		os.Remove(tmpPath)
+		slog.Error("Failed to write config file", "path", configPath.Path, "error", err)
+		return fmt.Errorf("%w: failed to write config to file '%s'", ErrConfigFileWrite, configPath.Path)
+	}
+
+	if err := os.Rename(tmpPath, configPath.Path); err != nil {
+		os.Remove(tmpPath)
+		slog.Error("Failed to move config file into place", "path", configPath.Path, "error", err)
 		return fmt.Errorf("%w: failed to write config to file '%s'", ErrConfigFileWrite, configPath.Path)
 	}
 
